@@ -406,6 +406,12 @@ def project(items, target, make, interp=None):
         if isinstance(it, Op):
             if it.target is target:
                 el = make(it, interp) if make is compose_op_element else make(it)
+                if el is not None and el.kind == 'array' and not el.extra.get('enum_coded') and isinstance(el.val, ListV) and el.val.complete and \
+                        0 < len(el.val.items) <= 8 and not any(isinstance(x, Sym) and x.op in ('splat', 'repeat', 'comp', 'star') for x in el.val.items):
+                    # compose_numeric_array([a, b], w) with the items spelled out is compose_numeric(a, w); compose_numeric(b, w)
+                    u = el.body[0]
+                    out.extend(El('u', w=u.w, order=u.order, val=x, op=it) for x in el.val.items)
+                    continue
                 if el is not None and not (el.kind == 'const' and el.w == 0):      # writing b'' writes nothing
                     out.append(el)
         elif isinstance(it, tuple):
